@@ -101,9 +101,6 @@ def judge_module(o):
 
 # known findings: each is ONE input; the generator avoids the construct, the reproducer is run on every check
 REPRODUCERS = [
-    ("fmt:nested-trace-if-false", "fn t() {\n  let b = (a?)?\n  b\n}\n"),
-    ("fmt:trace-label-parentheses", "fn t() {\n  trace (@\"a\" && b)\n  c\n}\n"),
-    ("fmt:trace-label-bytearray", "fn t() {\n  trace (\"abc\")\n  c\n}\n"),
     ("fmt:bare-fail-in-parentheses", "fn t() {\n  let x = (fail)\n  x\n}\n"),
 ]
 
@@ -124,6 +121,9 @@ REGRESSIONS = [
     ("todo-pipe-stage", "fn t() {\n  x |> (todo @\"wip\")\n}\n"),
     ("comment-in-constructor-pattern", "fn t(x) {\n  when x is {\n    Foo {\n      // c\n      a,\n      b,\n    } -> a + b\n  }\n}\n"),
     ("pipeline-comment-idempotent", "fn c() {\n  or { acc, False } |> {\n    // c20\n    foo.Quux\n  } |> d\n}\n"),
+    ("fixed-nested-trace-if-false", "fn t() {\n  let b = (a?)?\n  b\n}\n"),
+    ("fixed-trace-label-parentheses", "fn t() {\n  trace (@\"a\" && b)\n  c\n}\n"),
+    ("fixed-trace-label-bytearray", "fn t() {\n  trace (\"abc\")\n  c\n}\n"),
     ("named-discard-tail", "fn t(x) {\n  when x is {\n    [a, .._rest] -> a\n    [b, ..] -> b\n    _ -> 0\n  }\n}\n"),
 ]
 
